@@ -131,7 +131,13 @@ def rule_f(ctx):
     from . import c03
     c03.rule_b(ctx)
 
+def rule_g(ctx):
+    """a blocked sender / an idle receiver is always woken when its condition becomes true (C12.b)"""
+    from . import c12
+    c12.rule_b(ctx)
+
 RULES = [
+    ("C02.g", "wake-up pairing of the mailbox (a suspended sender resumes in order)", rule_g),
     ("C02.f", "every connection enqueues inside the future that the port awaits", rule_f),
     ("C02.e", "the receiver processes popped messages one at a time, to completion", rule_e),
     ("C02.a", "a send completes only after the push succeeded", rule_a),
